@@ -330,6 +330,21 @@ def oracles(rec):
                 sn = leaf_data[toks[1]]['snake']
                 if o['res'] != f'errdyn:WS:{toks[1]}:{prev[1]}:set_{sn}_data' or cur != prev:
                     fail('C11', f'set_{toks[1]} in state {prev[1]}: result {o["res"]}')
+        # data of a superstate: readable / settable from exactly the leaves beneath it
+        sup_data = {sp['state']: sp for sp in info['storage'] if not sp['leaf']}
+        if op == 'set' and prev[0] == 'dyn' and prev[1] in states and toks[1] in sup_data:
+            beneath = (prev[1], toks[1]) in info['substates'] or [prev[1], toks[1]] in info['substates']
+            if beneath:
+                if o['res'] != 'ok' or cur[3].get(toks[1]) != toks[2]:
+                    fail('C11', f'set_{toks[1]} (data of a superstate) in its leaf {prev[1]}: result {o["res"]}, read back {cur[3].get(toks[1])}')
+            elif not o['res'].startswith('errdyn:WS:') or cur != prev:
+                fail('C11', f'set_{toks[1]} (data of a superstate) outside it, in {prev[1]}: result {o["res"]}')
+        if op == 'read' and prev[0] == 'dyn' and prev[1] in states and toks[1] in sup_data:
+            beneath = (prev[1], toks[1]) in info['substates'] or [prev[1], toks[1]] in info['substates']
+            if not beneath and o['res'] != 'val:-':
+                fail('C11', f'read {toks[1]} (data of a superstate) outside it, in {prev[1]}, returned {o["res"]}')
+            if o['res'] != 'val:' + prev[3].get(toks[1], '-'):
+                fail('C11', f'read {toks[1]} returned {o["res"]} but the value was {prev[3].get(toks[1])}')
         if op == 'read' and prev[0] == 'dyn' and prev[1] in states and toks[1] in leaf_data:
             if (o['res'] != 'val:-') != (prev[1] == toks[1]):
                 fail('C11', f'read {toks[1]} in state {prev[1]} returned {o["res"]}')
